@@ -1,0 +1,35 @@
+//go:build verif
+// +build verif
+
+package prom
+
+// Machine-checked contracts for the configuration manager (read by /verif/engine, see /verif/DESIGN.md).
+// This file contains comments only and is excluded from every normal build by the tag "verif".
+
+/*@
+// the structural digest (assumed): gHashed is the configuration object it was computed over, gLastHash its value
+ghost global gHashed ref[github.com/prometheus/prometheus/config.Config]
+ghost global gLastHash int
+contract github.com/mitchellh/hashstructure/v2.Hash
+  ensures result1 == nil ==> result0 == gLastHash
+  modifies gLastHash
+
+// "the hash ignores external labels": at the moment the digest is taken the external labels of the configuration are empty
+on call "github.com/mitchellh/hashstructure/v2.Hash"(v, format, opts) in ConfigManager.ReloadFromRaw
+   assert[C16,C08] @external_labels_do_not_enter_the_hash len(info.Config.GlobalConfig.ExternalLabels) == 0
+   do gHashed = info.Config
+
+contract github.com/prometheus/prometheus/config.Load
+  ensures result1 == nil ==> result0 != nil && fresh(result0)
+  modifies github.com/prometheus/prometheus/config.Config.* at {}
+
+// a successful reload publishes the loaded configuration together with the digest computed over that very object, with its
+// external labels put back; a failed load / digest leaves the published configuration as it was
+contract ConfigManager.ReloadFromRaw
+  requires c != nil && c.currentConfig != nil
+  ensures[C16,C08] @published_hash_is_of_the_published_config c.currentConfig != old(c.currentConfig) ==>
+        (c.currentConfig.Config == gHashed && c.currentConfig.ConfigHash == sprint(gLastHash) && c.currentConfig.ExtraConfig == old(c.currentConfig.ExtraConfig))
+  ensures[C16] @failed_reload_keeps_the_published_config (err != nil && c.currentConfig == old(c.currentConfig)) ==> c.currentConfig.ConfigHash == old(c.currentConfig.ConfigHash)
+  modifies ConfigManager.currentConfig at {c}, ConfigInfo.* at {}, github.com/prometheus/prometheus/config.Config.* at {}, gLastHash, gHashed
+  loop 1 invariant c.currentConfig == info && info.Config == gHashed && info.ConfigHash == sprint(gLastHash) && info.ExtraConfig == old(c.currentConfig.ExtraConfig)
+@*/
